@@ -5,7 +5,7 @@ import re
 from ..core import AnalysisError, anchor
 from .. import cfront, pyfront
 from ..cfront import walk, strip, callee_name, call_args, render, line_of, is_assign, qtype
-from . import c13
+from . import capacity, c13
 
 MSG_CALLS = {'reb_simulation_error', 'reb_simulation_warning', 'sprintf', 'snprintf', 'printf'}
 
@@ -288,7 +288,63 @@ def rule_python_none(ctx):
     ctx.covered('R14.6', 'Python selectors: None-tests of optional index/hash arguments; both C removal paths reached; messages processed', n, floor=3)
 
 
+def rule_sort_order(ctx):
+    """R14.7: the lookup table is sorted with qsort and searched by bisection with unsigned < and >; the comparator must be
+    the same total order. A comparator that returns a difference of the keys converted to int (a - b) is not: the
+    difference of two 32-bit unsigned hashes wraps, so the table comes out in an order the bisection cannot search."""
+    tus = cfront.load_tus()
+    n = 0
+    samples = []
+    for c, tu in sorted(tus.items()):
+        for fname, fn in tu.funcs.items():
+            if cfront.basename(fn.get('_locfile') or fn.get('_file')) != c:
+                continue
+            for e in walk(cfront.body(fn)):
+                if e.get('kind') != 'CallExpr' or callee_name(e) not in ('qsort', 'bsearch'):
+                    continue
+                cmp_arg = strip(call_args(e)[-1], casts=True)
+                anchor(cmp_arg.get('kind') == 'DeclRefExpr', 'comparator of %s in %s is a named function' % (callee_name(e), fname))
+                cname = cmp_arg['referencedDecl']['name']
+                cfn = tu.funcs.get(cname)
+                anchor(cfn is not None, 'comparator %s defined in %s' % (cname, c))
+                rets = [x for x in walk(cfront.body(cfn)) if x.get('kind') == 'ReturnStmt' and x.get('inner')]
+                anchor(rets, 'comparator %s returns a value' % cname)
+                for rt in rets:
+                    n += 1
+                    top = strip(rt['inner'][0], casts=True)
+                    bad = None
+                    for x in walk(rt['inner'][0]):
+                        if x.get('kind') == 'BinaryOperator' and x.get('opcode') == '-':
+                            for side in x['inner']:
+                                sd = strip(side, casts=True)
+                                if sd.get('kind') == 'BinaryOperator' and sd.get('opcode') in ('<', '>', '<=', '>='):
+                                    continue        # (a>b)-(a<b): operands are 0/1
+                                ty = qtype(sd)
+                                if sd.get('kind') in ('IntegerLiteral',):
+                                    continue
+                                bad = (render(x), ty)
+                    where = 'src/%s:%s %s' % (c, line_of(rt), cname)
+                    if bad:
+                        ctx.report('R14.7', '%s:difference' % cname, where,
+                                   'sort comparator returns the difference %s of keys of type %s converted to int: it wraps for keys more than INT_MAX apart, so the sorted order is not the unsigned order the bisection in reb_search_lookup_table assumes'
+                                   % (bad[0], bad[1]))
+                    else:
+                        samples.append('%s returns %s' % (where, render(top)[:80]))
+    # the search compares the same key with unsigned < and >
+    tu = cfront.load_tu('particle.c')
+    fn = tu.func('reb_search_lookup_table')
+    cmps = [render(x) for x in walk(cfront.body(fn)) if x.get('kind') == 'BinaryOperator' and x.get('opcode') in ('<', '>') and 'lookuphash' in render(x)]
+    n += len(cmps)
+    anchor(len(cmps) >= 2, 'bisection in reb_search_lookup_table compares lookuphash with < and >')
+    for x in walk(cfront.body(fn)):
+        if x.get('kind') == 'VarDecl' and x.get('name') == 'lookuphash' and 'uint32_t' not in qtype(x) and 'unsigned' not in qtype(x):
+            ctx.report('R14.7', 'search:type', 'src/particle.c:%s reb_search_lookup_table' % line_of(x), 'the bisection key is declared %s: the comparator sorts unsigned 32-bit hashes' % qtype(x))
+    ctx.covered('R14.7', 'qsort/bsearch comparators are overflow-free three-way comparisons; the bisection uses unsigned < and > on the same key', n, floor=3, samples=samples)
+
+
 def run(ctx):
+    rule_sort_order(ctx)
+    capacity.rule_release_resets_capacity(ctx, 'R14.8')
     rule_failure_atomicity(ctx)
     rule_growth(ctx)
     rule_lookup(ctx)
